@@ -89,6 +89,9 @@ func (g *Gen) frameObls(st *State, pos token.Pos) {
 		if c == "@epoch" || c == "alloc" || c == "It" {
 			continue
 		}
+		if g.shared()[c] {
+			continue // shared components change under interference; this goroutine's writes are governed by guar
+		}
 		cur, init := st.heap[c], g.heapGet(g.entry, c)
 		if cur == init {
 			continue
@@ -150,9 +153,17 @@ func (g *Gen) call(x ssa.Value, cc *ssa.CallCommon, st *State) {
 		// the environment may run before the call, and again once it has returned
 		g.interfere(st)
 		prev := st.clone()
+		g.thenMid = nil
 		g.callInner(x, cc, st)
+		if g.thenMid != nil {
+			prev = g.thenMid // a blocking call: the second phase is a step of its own
+			g.thenMid = nil
+		}
 		if st.r != "false" {
-			if g.touchesShared(st, prev) {
+			// callees of this module are verified against the guarantee step by step themselves
+			ctc := g.calleeContract(cc)
+			own := ctc != nil && !ctc.Extern && !ctc.Trusted
+			if !own && g.touchesShared(st, prev) {
 				g.checkGuar(prev, st, fmt.Sprintf("call:%s#%d", calleeName(cc), g.callOrd[calleeName(cc)]), cc.Pos())
 			}
 			g.interfere(st)
@@ -234,6 +245,42 @@ func (g *Gen) callInner(x ssa.Value, cc *ssa.CallCommon, st *State) {
 			}
 		}
 	}
+	// ghost updates attached to this call site (part of the same atomic step as the call)
+	doGhost := func(after bool) {
+		if g.c == nil {
+			return
+		}
+		for _, cs := range g.c.Calls {
+			list := cs.Ghost
+			if after {
+				list = cs.GhostAfter
+			}
+			if cs.Callee == cname && (cs.K == k || cs.K == 0) && len(list) > 0 {
+				cs.Matched = true
+				// all right-hand sides are evaluated in the state before the group of assignments
+				env0 := g.env(st.clone(), g.callScope(vars))
+				for _, ga := range list {
+					env := env0
+					val := env.tr(ga.Val).S
+					if _, ok := g.m.comps[ga.Comp]; !ok {
+						g.unsup("ghost assignment to unknown component %s", ga.Comp)
+					}
+					cur := g.heapGet(st, ga.Comp)
+					if ga.Idx != nil {
+						idx := env.tr(ga.Idx)
+						ix := idx.S
+						if idx.Sort == "Str" {
+							ix = env.sidOf(idx)
+						}
+						g.heapSet(st, ga.Comp, store(cur, ix, val))
+					} else {
+						g.heapSet(st, ga.Comp, val)
+					}
+				}
+			}
+		}
+	}
+	doGhost(false)
 	pre := st.clone()
 	// caller-side call-site requirements
 	if g.c != nil {
@@ -318,6 +365,26 @@ func (g *Gen) callInner(x ssa.Value, cc *ssa.CallCommon, st *State) {
 			g.assume(st, post.tr(e).S)
 		}()
 	}
+	if ct.Then != nil {
+		// blocking call: phase 1 is this goroutine's step (checked against the guarantee), then
+		// the environment runs, then phase 2 (the wake-up) happens
+		g.checkGuar(pre, st, fmt.Sprintf("call:%s#%d/phase1", cname, k), pos)
+		g.interfere(st)
+		mid := st.clone()
+		for _, pat := range ct.Then.Modifies {
+			for _, c := range g.expandMod(pat) {
+				if c != "alloc" {
+					g.havocComp(st, c)
+				}
+			}
+		}
+		p2 := g.env(st, pvars)
+		p2.old = mid
+		for _, e := range ct.Then.Ensures {
+			g.assume(st, p2.tr(e).S)
+		}
+		g.thenMid = mid
+	}
 	for gname, rname := range ct.Bind {
 		if gv, ok := g.params[gname]; ok {
 			if rv, ok := vars[rname]; ok {
@@ -330,6 +397,7 @@ func (g *Gen) callInner(x ssa.Value, cc *ssa.CallCommon, st *State) {
 			}
 		}
 	}
+	doGhost(true)
 	// caller-side hints after the call
 	if g.c != nil {
 		for _, cs := range g.c.Calls {
